@@ -2,3 +2,7 @@ pub mod c08;
 pub mod clockq;
 pub mod common;
 pub mod shim;
+pub mod shardoracle;
+pub mod c12;
+pub mod fe;
+pub mod direxplain; pub mod c07;
